@@ -19,7 +19,7 @@ CFG = {
                   "declaration order; cycles are outside the property (the Go code does not terminate on them)",
     "technique": "Coq proof (invariants over operation histories of a fuel-recursive model of Struct.Value/Outdated) + vm_compute correspondence check",
     "design_ref": "DESIGN.md §4 C11, §5 entry 12",
-    "n_quick": 150, "n_thorough": 1500,
+    "n_quick": 150, "n_thorough": 1000,
     "rule": "6 fixed histories (4-input node with 240 idle reads, 12-element array port with delete/append/clear, upstream "
             "re-wiring, zero-input nodes, chain read repeatedly, only-the-last-dependency changes) + random histories of "
             "30-90 (thorough 40-220) operations on graphs of 4-12 (thorough 4-40) nodes of 7 harness-defined struct kinds "
